@@ -559,6 +559,67 @@ func certZoo() []ZooCert {
 			}
 		}
 	}
+	// (6d) public-key parameters the parser accepts but no key generator produces: DSA domain parameters and public values
+	// of every relative size (P = 1, 2, a small prime, the real one; Q longer than P; G = 1; Y = 1, P - 1, P, Y + P, far
+	// above P), on a server certificate of 2015 (inside the window of the DSA lints)
+	for _, cc := range loadCorpus().Certs {
+		if cc.File != "dsaUniqueRep.pem" && cc.File != "dsaCorrectOrderInSubgroup.pem" {
+			continue
+		}
+		var spki struct {
+			Alg struct {
+				OID    asn1.ObjectIdentifier
+				Params struct{ P, Q, G *big.Int }
+			}
+			Key asn1.BitString
+		}
+		if _, err := asn1.Unmarshal(cc.Cert.RawSubjectPublicKeyInfo, &spki); err != nil {
+			continue
+		}
+		var y *big.Int
+		if _, err := asn1.Unmarshal(spki.Key.Bytes, &y); err != nil {
+			continue
+		}
+		P, Q, G := spki.Alg.Params.P, spki.Alg.Params.Q, spki.Alg.Params.G
+		one, two := big.NewInt(1), big.NewInt(2)
+		ps := []*big.Int{one, two, big.NewInt(23), P}
+		qs := []*big.Int{one, big.NewInt(5), big.NewInt(11), Q, new(big.Int).Lsh(one, 300)}
+		gs := []*big.Int{one, two, G}
+		ys := []*big.Int{one, y, new(big.Int).Sub(P, one), P, new(big.Int).Add(y, P), new(big.Int).Lsh(one, 2100)}
+		n := 0
+		for pi, p := range ps {
+			for qi, q := range qs {
+				for gi, g := range gs {
+					for yi, yy := range ys {
+						real := 0
+						if pi == 3 {
+							real++
+						}
+						if qi == 3 {
+							real++
+						}
+						if gi == 2 {
+							real++
+						}
+						// everything around the real key, and every all-degenerate combination; the rest in the thorough tier
+						if real < 2 && !(pi < 2 && gi == 0 && yi < 4) && !thorough {
+							continue
+						}
+						pb, _ := asn1.Marshal(p)
+						qb, _ := asn1.Marshal(q)
+						gb, _ := asn1.Marshal(g)
+						yb, _ := asn1.Marshal(yy)
+						oid, _ := asn1.Marshal(spki.Alg.OID)
+						nspki := encTLV(0x30, concat(encTLV(0x30, concat(oid, encTLV(0x30, concat(pb, qb, gb)))), encTLV(0x03, concat([]byte{0}, yb))))
+						if der, err := replaceTBSField(cc.DER, 5, nspki); err == nil {
+							add("key-params", fmt.Sprintf("%s-p%d-q%d-g%d-y%d", strings.TrimSuffix(cc.File, ".pem"), pi, qi, gi, yi), der)
+							n++
+						}
+					}
+				}
+			}
+		}
+	}
 	// (7) own-key signatures under another issuer name
 	for _, cc := range ownKeyCerts() {
 		out = append(out, ZooCert{cc, "own-key"})
